@@ -118,25 +118,38 @@ def part_goals(ctx, s, gi, p, fb, names, hess_pairs, tag):
     W, V, f, g = p.W, p.V, p.f, p.g
     base = "%s_s%d_g%d" % (tag, s.sid, gi)
     sw = sum(W)
+    # resolution_size = R > 1: the formulas apply at EVENT level, W_e = sum_j w_ej, x_e = sum_j w_ej x_ej / W_e
+    # (the folding commutes with d/dtheta; it is evaluated inside Coq from the flat per-sample lists)
+    R = getattr(s, "R", 1)
+    Wn = np.array(W)
+    if R > 1:
+        WE = Wn.reshape(-1, R).sum(1)
+        fold = lambda x: (Wn * np.array(x)).reshape(-1, R).sum(1) / WE
+        WX = "(ev_weights (chunk %d W))" % R
+        EV = lambda n: "(ev_density_nz (chunk %d W) (chunk %d %s))" % (R, R, n)
+        LF = c06.RESF
+    else:
+        WE, fold, WX, EV, LF = Wn, (lambda x: np.array(x)), "W", (lambda n: n), LISTF
+    fE = fold(f)
     if m not in CFIT_LIKE:
         ext = "true" if m == "extended" else "false"
         I = float(np.dot(V, g))
         common_lets = [("W", Rlist(W)), ("f", Rlist(f)), ("V", Rlist(V)), ("g", Rlist(g))]
         for k in range(K):
             dk, gk = p.J[k], p.Jg[k]
-            scale = float(np.sum(np.abs(np.array(W) * dk / f))) + abs(sw * float(np.dot(V, gk)) / (I if m != "extended" else 1.0))
-            stmt = lets(common_lets + [("dk", Rlist(dk)), ("gk", Rlist(gk))]) + le("grad_default %s W f dk V g gk" % ext, p.grad[k], ATOL + RTOL * scale)
-            tac = "intros W f V g dk gk; unfold W, f, V, g, dk, gk; cbv [grad_default int_g %s]; %s" % (LISTF, IP)
+            scale = float(np.sum(np.abs(WE * fold(dk) / fE))) + abs(sw * float(np.dot(V, gk)) / (I if m != "extended" else 1.0))
+            stmt = lets(common_lets + [("dk", Rlist(dk)), ("gk", Rlist(gk))]) + le("grad_default %s %s %s %s V g gk" % (ext, WX, EV("f"), EV("dk")), p.grad[k], ATOL + RTOL * scale)
+            tac = "intros W f V g dk gk; unfold W, f, V, g, dk, gk; cbv [grad_default int_g %s]; %s" % (LF, IP)
             out.append((base + "_G%d" % k, stmt, tac, {"layer": "gradient", "site": "nll_grad_batch", "param": names[k], "impl": p.grad[k]}))
         for (k, l) in hess_pairs:
             dk, dl, d2 = p.J[k], p.J[l], p.H[k][l]
             gk, gl, g2 = p.Jg[k], p.Jg[l], p.Hg[k][l]
-            t1 = np.array(W) * (d2 / f - dk * dl / f ** 2)
+            t1 = WE * (fold(d2) / fE - fold(dk) * fold(dl) / fE ** 2)
             scale = float(np.sum(np.abs(t1))) + abs(sw) * (abs(float(np.dot(V, g2))) / (I if m != "extended" else 1.0)
                                                            + (abs(float(np.dot(V, gk)) * float(np.dot(V, gl))) / I ** 2 if m != "extended" else 0.0))
             stmt = lets(common_lets + [("dk", Rlist(dk)), ("dl", Rlist(dl)), ("d2", Rlist(d2)), ("gk", Rlist(gk)), ("gl", Rlist(gl)), ("g2", Rlist(g2))]) \
-                + le("hess_default %s W f dk dl d2 V g gk gl g2" % ext, p.hess[k][l], ATOL + RTOL * scale)
-            tac = ("intros W f V g dk dl d2 gk gl g2; unfold W, f, V, g, dk, dl, d2, gk, gl, g2; cbv [hess_default hterms int_g int_h %s]; %s" % (LISTF, IP))
+                + le("hess_default %s %s %s %s %s %s V g gk gl g2" % (ext, WX, EV("f"), EV("dk"), EV("dl"), EV("d2")), p.hess[k][l], ATOL + RTOL * scale)
+            tac = ("intros W f V g dk dl d2 gk gl g2; unfold W, f, V, g, dk, dl, d2, gk, gl, g2; cbv [hess_default hterms int_g int_h %s]; %s" % (LF, IP))
             out.append((base + "_H%d_%d" % (k, l), stmt, tac, {"layer": "hessian", "site": "nll_grad_hessian", "param": (names[k], names[l]), "impl": float(p.hess[k][l])}))
     else:
         extm = m == "cfit_extended"
@@ -144,12 +157,13 @@ def part_goals(ctx, s, gi, p, fb, names, hess_pairs, tag):
         sd = p.e * f                    # s_i on data
         sg = p.eg * g                   # s_j on MC
         I = float(np.dot(V, sg)); Ibg = float(np.dot(V, p.bm))
-        c2 = fb * p.b / Ibg             # harness-side constant part, certified below against I_bg
-        P = c1 * sd / I + c2
+        c2 = fb * fold(p.b) / Ibg       # harness-side constant part, certified below against I_bg
+        sE = fold(sd)
+        P = c1 * sE / I + c2
         # layer: c2_i = f_bg * bg_i / I_bg  (one goal, squared distance)
-        stmt = lets([("V", Rlist(V)), ("bm", Rlist(p.bm)), ("b", Rlist(p.b))]) + \
-            "(sqdist (map (fun x => %s * x / rdot V bm) b) %s <= %s)%%R" % (Rq(fb), Rlist(c2), Rq((1e-11 * max(abs(c2))) ** 2))
-        tac = "intros V bm b; unfold V, bm, b; cbv [sqdist %s]; %s" % (LISTF, IP)
+        stmt = lets([("W", Rlist(W)), ("V", Rlist(V)), ("bm", Rlist(p.bm)), ("b", Rlist(p.b))]) + \
+            "(sqdist (map (fun x => %s * x / rdot V bm) %s) %s <= %s)%%R" % (Rq(fb), EV("b"), Rlist(c2), Rq((1e-11 * max(abs(c2))) ** 2))
+        tac = "intros W V bm b; unfold W, V, bm, b; cbv [sqdist %s]; %s" % (LF, IP)
         out.append((base + "_C2", stmt, tac, {"layer": "cfit_bg_term", "site": "Model_cfit prob"}))
         common_lets = [("W", Rlist(W)), ("s", Rlist(sd)), ("c2", Rlist(c2)), ("V", Rlist(V)), ("sg", Rlist(sg))]
         If = c06.bound_frag("I", "rdot V sg", I, "I, V, sg", "")
@@ -157,32 +171,32 @@ def part_goals(ctx, s, gi, p, fb, names, hess_pairs, tag):
         for k in range(K):
             dsk = p.e * p.J[k]; dsgk = p.eg * p.Jg[k]
             dIk = float(np.dot(V, dsgk))
-            dP = c1 * (dsk * I - sd * dIk) / I ** 2
-            scale = float(np.sum(np.abs(np.array(W) * dP / P))) + (abs(sw * dIk / I) + abs(dIk / c1) if extm else 0.0) \
-                + float(np.sum(np.abs(np.array(W) * c1 * dsk / I / P)))
+            dP = c1 * (fold(dsk) * I - sE * dIk) / I ** 2
+            scale = float(np.sum(np.abs(WE * dP / P))) + (abs(sw * dIk / I) + abs(dIk / c1) if extm else 0.0) \
+                + float(np.sum(np.abs(WE * c1 * fold(dsk) / I / P)))
             stmt = lets(common_lets + [("dsk", Rlist(dsk)), ("dsgk", Rlist(dsgk))]) + \
-                le("%s %s W s dsk c2 (rdot V sg) (rdot V dsgk)" % (gname, Rq(c1)), p.grad[k], ATOL + RTOL * scale)
+                le("%s %s %s %s %s c2 (rdot V sg) (rdot V dsgk)" % (gname, Rq(c1), WX, EV("s"), EV("dsk")), p.grad[k], ATOL + RTOL * scale)
             tac = ("intros W s c2 V sg dsk dsgk; cbv [grad_cfit_ext grad_cfit]; " + If
                    + c06.bound_frag("dIk", "rdot V dsgk", dIk, "dIk, V, dsgk", "", absd=1e-13 * float(np.sum(np.abs(np.array(V) * dsgk))))
-                   + "unfold W, s, c2, dsk; cbv [cfit_P cfit_dP %s]; %s" % (LISTF, IP))
+                   + "unfold W, s, c2, dsk; cbv [cfit_P cfit_dP %s]; %s" % (LF, IP))
             out.append((base + "_G%d" % k, stmt, tac, {"layer": "gradient", "site": "cfit nll_grad_batch", "param": names[k], "impl": p.grad[k]}))
         for (k, l) in hess_pairs:
             dsk, dsl, d2s = p.e * p.J[k], p.e * p.J[l], p.e * p.H[k][l]
             gk_, gl_, g2_ = p.eg * p.Jg[k], p.eg * p.Jg[l], p.eg * p.Hg[k][l]
             dIk, dIl, d2I = float(np.dot(V, gk_)), float(np.dot(V, gl_)), float(np.dot(V, g2_))
-            dPk = c1 * (dsk * I - sd * dIk) / I ** 2; dPl = c1 * (dsl * I - sd * dIl) / I ** 2
-            parts = [d2s / I, (dsk * dIl + dsl * dIk) / I ** 2, sd * d2I / I ** 2, 2 * sd * dIk * dIl / I ** 3]
-            scale = float(np.sum(np.abs(np.array(W)) * (c1 * sum(np.abs(q) for q in parts) / P + np.abs(dPk * dPl) / P ** 2)))
+            dPk = c1 * (fold(dsk) * I - sE * dIk) / I ** 2; dPl = c1 * (fold(dsl) * I - sE * dIl) / I ** 2
+            parts = [fold(d2s) / I, (fold(dsk) * dIl + fold(dsl) * dIk) / I ** 2, sE * d2I / I ** 2, 2 * sE * dIk * dIl / I ** 3]
+            scale = float(np.sum(np.abs(WE) * (c1 * sum(np.abs(q) for q in parts) / P + np.abs(dPk * dPl) / P ** 2)))
             if extm:
                 scale += abs(sw) * (abs(d2I / I) + abs(dIk * dIl / I ** 2)) + abs(d2I / c1)
             stmt = lets(common_lets + [("dsk", Rlist(dsk)), ("dsl", Rlist(dsl)), ("d2s", Rlist(d2s)), ("gk", Rlist(gk_)), ("gl", Rlist(gl_)), ("g2", Rlist(g2_))]) + \
-                le("%s %s W s dsk dsl d2s c2 (rdot V sg) (rdot V gk) (rdot V gl) (rdot V g2)" % (hname, Rq(c1)), p.hess[k][l], ATOL + RTOL * scale)
+                le("%s %s %s %s %s %s %s c2 (rdot V sg) (rdot V gk) (rdot V gl) (rdot V g2)" % (hname, Rq(c1), WX, EV("s"), EV("dsk"), EV("dsl"), EV("d2s")), p.hess[k][l], ATOL + RTOL * scale)
             ad = lambda t: 1e-13 * float(np.sum(np.abs(np.array(V) * t)))
             tac = ("intros W s c2 V sg dsk dsl d2s gk gl g2; cbv [hess_cfit_ext hess_cfit]; " + If
                    + c06.bound_frag("dIk", "rdot V gk", dIk, "dIk, V, gk", "", absd=ad(gk_))
                    + c06.bound_frag("dIl", "rdot V gl", dIl, "dIl, V, gl", "", absd=ad(gl_))
                    + c06.bound_frag("d2I", "rdot V g2", d2I, "d2I, V, g2", "", absd=ad(g2_))
-                   + "unfold W, s, c2, dsk, dsl, d2s; cbv [hterms cfit_P cfit_dP cfit_d2P %s]; %s" % (LISTF, IP))
+                   + "unfold W, s, c2, dsk, dsl, d2s; cbv [hterms cfit_P cfit_dP cfit_d2P %s]; %s" % (LF, IP))
             out.append((base + "_H%d_%d" % (k, l), stmt, tac, {"layer": "hessian", "site": "cfit nll_grad_hessian", "param": (names[k], names[l]), "impl": float(p.hess[k][l])}))
     return out
 
@@ -207,6 +221,10 @@ def run_scenario(ctx, rnd, s, opts):
     N = max(s.nd[gi] + s.nb[gi] for gi in range(s.ngroup))
     batches = [1, 3, N - 1, N, N + 5]
     b0 = rnd.choice([3, N - 1, N, N + 5])
+    R = getattr(s, "R", 1)
+    if R > 1:  # batches of whole events
+        batches = sorted(set([R, 2 * R, N - R, N, N + 2 * R]))
+        b0 = rnd.choice(batches[1:])
     x = c06.random_point(rnd, cfg.vm)
     if s.model in ("cached_int",):
         x = {k: v for k, v in x.items() if not (k.endswith("_mass") or k.endswith("_width"))}
@@ -305,9 +323,10 @@ def run_scenario(ctx, rnd, s, opts):
             n3, g3, h3 = f2.nll_grad_hessian(x, batch=b); h3 = np.array(h3, dtype=np.float64)
             dmax = float(np.max(np.abs(h3 - h_tot)))
             cases.append(arith("b%d_s%d_BH" % (b, s.sid), Rq(dmax), 0.0, ATOL + RTOL * hsc, meta("hessian", "nll_grad_hessian (batch independence)", other_batch=b)))
-        ctx.count("batch:" + ("1" if b == 1 else "3" if b == 3 else "N-1" if b == N - 1 else "N" if b == N else "N+5"))
+        ctx.count("batch:" + (("1" if b == 1 else "3" if b == 3 else "N-1" if b == N - 1 else "N" if b == N else "N+5") if R == 1 else "whole-event multiple of R"))
     ctx.count("model:" + s.model); ctx.count("groups:%d" % s.ngroup); ctx.count("nparams:%d" % K); ctx.count("gauss:%d" % len(s.gc))
-    ctx.count("batch:" + ("3" if b0 == 3 else "N-1" if b0 == N - 1 else "N" if b0 == N else "N+5"))
+    ctx.count("batch:" + (("3" if b0 == 3 else "N-1" if b0 == N - 1 else "N" if b0 == N else "N+5") if R == 1 else "whole-event multiple of R"))
+    ctx.count("resolution_size:%d" % R)
     ctx.distinct.add((s.sid, "point"))
     # ---- bounded parameters: trans_* wrappers
     if opts.get("bounds"):
@@ -432,6 +451,9 @@ def plan(ctx, rnd):
         sc.append((sid, "cfit", 2, True, {"fd": False, "bounds": False, "all_batches": False, "tie": False, "hess_batches": False})); sid += 1
         if not quick:
             sc.append((sid, "extended", 2, False, {"fd": False, "bounds": False, "all_batches": False, "tie": True, "hess_batches": False})); sid += 1
+    # resolution_size > 1 (default/extended Model and Model_cfit): gradient, Hessian, value-alongside, batches of whole events
+    for m, R in ((("default", 2), ("cfit", 3)) if quick else (("default", 2), ("default", 3), ("extended", 2), ("cfit", 3), ("cfit", 2))):
+        sc.append((sid, m, 1, True, {"fd": False, "bounds": False, "all_batches": True, "tie": False, "hess_batches": True, "R": R})); sid += 1
     # fixed reproducer stream of the open known finding F13 (independent of the seed)
     for i, m in enumerate(("cfit", "cfit_cached", "cfit_extended", "simple_cfit")):
         sc.append((900 + i, m, 1, False, {"f13": True}))
@@ -477,7 +499,7 @@ class Acc(c06.Acc):
 
 
 def make_scenario(acc, srnd, sid, m, ngroup, gauss, opts):
-    s = c06.make_scenario(acc, srnd, sid, m, ngroup, gauss, False)
+    s = c06.make_scenario(acc, srnd, sid, m, ngroup, gauss, False, opts.get("R", 1))
     # smaller model than C06: two chains (+ a third one tied to the second when requested)
     if opts.get("tie"):
         s.cfg["constrains"]["var_equal"] = [["A->R_BD.CR_BD->B.D_total_0r", "A->R_CD.BR_CD->C.D_total_0r"]]
